@@ -6,7 +6,9 @@ from contracts import c_utils
 META = {
     "level": "other",
     "text": "Deductive: split_idx, the function every generation-side work split goes through, is verified for all (N, P, rank) with its tiling lemmas "
-            "(slices contiguous, disjoint, in rank order, covering 0..N-1, including P > N). Bounded (not counted as proved): real generation on the "
+            "(slices contiguous, disjoint, in rank order, covering 0..N-1, including P > N). Structural obligations on every function of generator.py, simplifier.py and "
+            "duplicate_checker.py (flow-sensitive rank-taint analysis of the AST): each MPI collective is reached under rank-invariant control (all ranks execute the same "
+            "sequence of collectives, so none waits forever) and every write to the file system is executed by rank 0 only. Bounded (not counted as proved): real generation on the "
             "multi-process MPI stand-in with P in {1,2,3,5,16} (more ranks than functions with a map), perturbed rank speeds; tree, function and "
             "code-length files compared bytewise with the single-rank run, the unique/match/map triple checked with the C03 library predicate, every "
             "rank must terminate. The SPMD lifting of the individual gather/bcast sites is not discharged deductively yet.",
@@ -20,6 +22,7 @@ def check(run):
     tier = run.tier
     st, failed, eng = D.verify_function(run, "generation/utils.py", "split_idx", c_utils.split_idx_contract)
     D.prove_lemmas(run, "split_idx tiling", c_utils.tiling_lemmas())
+    sfailed = D.structural_spmd(run, ["generation/generator.py", "generation/simplifier.py", "generation/duplicate_checker.py"], "generation")
     plist = [1, 2, 5, 16] if tier == "quick" else [1, 2, 3, 5, 7, 16]
     groups = [[{"runname": "core_maths", "n": 3, "P_list": plist, "perturb": True}],
               [{"runname": "core_maths", "n": 4, "P_list": plist[:3] if tier == "quick" else plist, "perturb": True}],
@@ -48,6 +51,10 @@ def check(run):
         from checks.C14 import report_unproved, bounded_search_split
         r1 = bounded_search_split(run, tier)
         report_unproved(run, failed, bool(r1["failures"]), "split_idx")
+    if sfailed and not found:
+        fq, desc, line = sfailed[0]
+        run.violation("spmd:%s:%s" % (fq.split("::")[1], desc.split(" at line")[0]), "%s: structural SPMD obligation no longer holds: %s (%d failed)" % (fq, desc, len(sfailed)),
+                      {"obligation": desc, "function": fq, "analysis": "pyvc/spmd.py collective_alignment / io_ownership"}, no_input=True)
     run.assume("A-mpi", "A-hash", "A-sympy: sympy calls are deterministic functions of their arguments within one process")
     run.trust("pyvc", "z3", "MPI stand-in /verif/stubs/mpi4py")
     return run.finish("other", META["text"], CHECKER)
